@@ -389,3 +389,79 @@ class FilesInfoRead(Contract):
 
     def ensures(self, c, old, result, **b):
         return [("walk-ends-only-at-the-end-marker", True)]
+
+
+@contract
+class RetrieveCodersInfo(Contract):
+    """UnpackInfo._retrieve_coders_info: after the CodersUnpackSize id one NUMBER is read for every output stream of every
+    coder of every folder, in order, and appended to THAT folder's sizes; an optional UnpackDigests record carries a
+    BooleanList over the folders and one CRC per DEFINED folder digest: a folder gets a CRC only when its flag is set,
+    and the number of CRCs read is the number of set flags; then END"""
+
+    target = "py7zr.archiveinfo:UnpackInfo._retrieve_coders_info"
+    props = ("C06", "C04", "C05")
+    abstract = True
+    opaque = ("archiveinfo:read_uint64", "archiveinfo:read_boolean", "archiveinfo:read_crcs")
+    pure = ("count", "ord")
+    noraise = ("append", "count", "tell", "ord")
+    frame_preserving = ("append", "count", "tell", "read", "read_uint64", "read_boolean", "read_crcs", "ord")
+    stable_attrs = ("folders", "numfolders", "coders", "unpacksizes")
+
+    def setup(self, c):
+        return {"self_": c.opq("self"), "file": c.opq("file")}
+
+    def raises(self):
+        return [RaiseSpec("Exception")]
+
+    def hooks(self):
+        def on_crcs(c, ev):
+            eng = c.eng
+            bools = [e for e in eng.trace if e.kind in ("call", "contract-call") and e.name.endswith("read_boolean")]
+            cnt = [e for e in eng.trace if e.kind == "pure" and e.name.endswith("count") and bools and e.recv is bools[-1].result]
+            ok = bool(bools and cnt and ev.args and len(ev.args) >= 2 and ev.args[1] is cnt[-1].result and cnt[-1].args and cnt[-1].args[0] is True)
+            c.oblig("assert", "one-crc-per-defined-folder-digest@read_crcs", ok, props=("C06", "C04"))
+            me = c.bound["self_"]
+            c.oblig("assert", "one-flag-per-folder@read_boolean", bool(bools and len(bools[-1].args) >= 2) and eq(bools[-1].args[1], attr(me, "numfolders")), props=("C06",))
+
+        return {("call", "read_crcs"): [on_crcs], ("contract-call", "py7zr.archiveinfo:read_crcs"): [on_crcs]}
+
+    def loops(self):
+        def noinv(c, Lp):
+            return []
+
+        def size_asserts(c, Lp):
+            evs = c.eng.trace[Lp.trace_mark:]
+            nums = [e for e in evs if e.kind in ("call", "contract-call") and e.name.endswith("read_uint64")]
+            apps = [e for e in evs if e.kind == "call" and e.name.endswith("append")]
+            folder = c.local("folder")
+            ok = len(nums) == 1 and len(apps) == 1 and apps[0].args and apps[0].args[0] is nums[0].result
+            return [("one-size-read-per-output-stream-into-its-folder", And(bool(ok), eq(apps[0].recv, attr(folder, "unpacksizes"))) if ok else False)]
+
+        def crc_asserts(c, Lp):
+            from pyvc import builtins_model as B
+
+            eng = c.eng
+            evs = eng.trace[Lp.trace_mark:]
+            el = Lp.element(Lp.i)
+            folder = el[1] if isinstance(el, tuple) else el
+            sets = [e for e in evs if e.kind == "setattr"]
+            flags = [e for e in sets if e.name == "digestdefined"]
+            crcs = [e for e in sets if e.name == "crc"]
+            defined = c.local("defined")
+            flag_k = B.get_item(eng, defined, Lp.i, None)
+            out = [("folder-flag-is-its-own-bit", bool(len(flags) == 1) and (And(eq(flags[0].recv, folder), eq(flags[0].args[0], flag_k)) if len(flags) == 1 else False))]
+            if crcs:
+                out.append(("crc-only-for-a-defined-digest", And(bool(len(crcs) == 1), eq(crcs[0].recv, folder), truthy(flag_k))))
+            else:
+                out.append(("defined-digest-gets-its-crc", Not(truthy(flag_k))))
+            return out
+
+        return {
+            "archiveinfo:UnpackInfo._retrieve_coders_info#loop0": LoopSpec("for-folder", noinv, target="folder in self.folders"),
+            "archiveinfo:UnpackInfo._retrieve_coders_info#loop1": LoopSpec("for-c", noinv, target="c in folder.coders"),
+            "archiveinfo:UnpackInfo._retrieve_coders_info#loop2": LoopSpec("for-outstream", noinv, asserts=size_asserts),
+            "archiveinfo:UnpackInfo._retrieve_coders_info#loop3": LoopSpec("for-idx-folder", noinv, target="(idx, folder) in enumerate(self.folders)", asserts=crc_asserts),
+        }
+
+    def ensures(self, c, old, result, **b):
+        return [("ends-at-the-end-marker", True)]
